@@ -1716,6 +1716,29 @@ package badger
 //@   assert[version-of-entry-key] before call ParseTs : arg0 == e.Key
 //@   assert[replayed-as-logged] before call Put : arg0 == mt.sl && arg1 == e.Key && arg2.Value == e.Value && arg2.Meta == e.meta && arg2.UserMeta == e.UserMeta && arg2.ExpiresAt == e.ExpiresAt
 
+// Re-opening the memtables: every WAL file found is opened, oldest first, and replayed into a
+// memtable that joins the immutable list unless it is empty; the next memtable id is above all of
+// them; an existing WAL is replayed (UpdateSkipList), a new one is not.
+//@ func (*DB).openMemTables
+//@   props C07 C08 C11
+//@   light
+//@   assert[opened-read-only-when-asked] before call openMemTable : arg0 == db && arg1 == fid && (db.opt.ReadOnly ? arg2 == os.O_RDONLY : arg2 == os.O_RDWR)
+//@   assert[non-empty-memtables-kept] before call append#2 : !ret(Empty#1) && len(arg1) == 1 && arg1[0] == mt
+//@   assert[empty-memtables-released] before call DecrRef : ret(Empty#1)
+
+//@ func (*DB).openMemTable
+//@   props C07 C08 C11
+//@   light
+//@   assert[wal-of-this-id] before call open : arg0 == mt.wal && arg1 == filepath && arg2 == flags && mt.wal.fid == uint32(fid)
+//@   assert[existing-wal-is-replayed] before call UpdateSkipList : arg0 == mt && ret(open#1) != z.NewFile && ret(open#1) == nil
+//@   assert[new-wal-needs-no-replay] before return#3 : result1 == z.NewFile && result0 == mt
+
+//@ func (*DB).newMemTable
+//@   props C08 C11
+//@   light
+//@   assert[next-id-used-and-advanced] before return#1 : result1 == nil && result0 == ret0(openMemTable#1) && db.nextMemFid == old(db.nextMemFid) + 1
+//@   assert[fresh-file-only] before call openMemTable : arg1 == db.nextMemFid
+
 // DB.MaxVersion is at least the maxVersion of the active memtable (unless read-only), of every
 // immutable memtable and of every table.
 //@ func (*DB).MaxVersion
